@@ -48,6 +48,15 @@ UNITS['U02'] = dict(
     not_covered=['ColumnBuffer::finalize and the *ColBuffer::finalize functions (Arc<Column> construction; integer part in U04)',
                  'is_lowercase_hex / is_uppercase_hex (char iterators)'])
 
+UNITS['U10'] = dict(
+    kind='verus', tpl='contracts/U10_merge.vx', timeout_s=600,
+    title='merge family: merge, merge_keep, merge_keep_nullable, merge_drop, merge_deduplicate (generic over T and C: Comparator<T>) + trait Comparator',
+    assumptions=['assumed contract of a comparator (trait Comparator: le is a total preorder; cmp_eq == le; cmp == strict part) - discharged for every real impl by U12k',
+                 'A-eq: PartialEq on element types is structural equality (vx_last_eq shim, external_body)',
+                 'R5: `T: VecData<T>` bound replaced by `T: Copy` (only Copy is used by these functions)'],
+    not_covered=['merge_deduplicate: strict sortedness of the result (ops structure, provenance and duplicate detection are proved)',
+                 'merge_partitioned, merge_deduplicate_partitioned, partition, subpartition'])
+
 UNITS['U09k'] = dict(
     kind='kani', crate='kani/U09', needs_lock=True,
     title='aggregate.rs / merge_aggregate.rs: SumI64, Count, MaxI64, MinI64 accumulate/combine and Combinable<i64>::combine (complete)',
@@ -97,7 +106,34 @@ UNITS['U05k'] = dict(
                  'decoded value of stored v under Add(t, y) is v + y (proved for the decode kernels in U04)'],
     not_covered=['Codec::encode_str (planner objects)', 'compile_expr choice of when to translate the constant'])
 
+UNITS['U12k'] = dict(
+    kind='kani', crate='kani/U12', needs_lock=True, timeout_s=900,
+    title='comparator.rs: every impl Comparator<T> for CmpLessThan / CmpGreaterThan (complete for ints and floats; strings bounded at 2 bytes)',
+    path_includes=['src/engine/operators/comparator.rs'],
+    harnesses=[dict(name='proofs::%s_%s' % (d, t), clause='cmp/cmp_eq/ordering describe one total preorder; direction = is_less_than()', fn='Comparator<%s> for %s' % (t, 'CmpLessThan' if d == 'lt' else 'CmpGreaterThan'))
+               for d in ('lt', 'gt') for t in ('u8', 'u16', 'u32', 'u64', 'i64', 'f64')]
+    + [dict(name='proofs::%s' % n, bounded='strings <= 2 ASCII bytes, unwind 4', unwind=4, clause='consistency + NULL placement (ascending: NULL last, descending: NULL first)', fn=n)
+       for n in ('lt_str', 'gt_str', 'lt_opt_str', 'gt_opt_str', 'lt_val', 'gt_val')]
+    + [dict(name='proofs::vx_canary', expect_fail=True)],
+    assumptions=['OrderedFloat total order is executed by CBMC, not assumed'],
+    not_covered=['Comparator<Option<OrderedFloat<f64>>> for CmpGreaterThan: not instantiated by the planner (design-time probe H7); reported, not claimed'])
+
 PROPS = {
+    'C02': dict(level='proof', units=['U10', 'U09k', 'U13k'],
+                level_text='Verus proofs of the merge kernels that combine per-partition results (sorted, provenance, left-biased, nothing skipped), complete Kani proofs of cross-partition aggregate combination and limit arithmetic',
+                level_note='per-partition planning, executor streaming, disk read scheduling and thread count are glue and not covered: the check catches a broken merge/combine primitive, not a broken plan',
+                technique='contract-based deductive verification (Verus + Kani complete harnesses) of extracted functions',
+                assumptions=[], not_covered=['executor stage partitioning / streaming', 'batch_merging::combine plan construction', 'disk read scheduler']),
+    'C04': dict(level='proof', units=['U09k', 'U10', 'U01'],
+                level_text='complete Kani proofs of accumulate/combine kernels; Verus proofs of dedup-merge / merge_drop / merge_keep kernels and bitmap primitives',
+                level_note='grouping-key construction, hash-map grouping and the final pass are not covered',
+                technique='contract-based deductive verification (Verus + Kani complete harnesses) of extracted functions',
+                assumptions=[], not_covered=['hashmap_grouping*', 'try_bitpacking (float log2)', 'Aggregate*::execute loops (pending)']),
+    'C05': dict(level='proof', units=['U10', 'U12k', 'U13k'],
+                level_text='Verus proof of merge (sorted, stable, limit), complete Kani proofs of integer/float comparators and LIMIT/OFFSET window arithmetic; string comparators bounded',
+                level_note='std sort_by/sort_unstable_by, the top-n driver and the planner choice between sort and top-n are not covered',
+                technique='contract-based deductive verification (Verus + Kani) of extracted functions',
+                assumptions=[], not_covered=['SortBy*::execute (std sort)', 'TopN::execute/finalize']),
     'C03': dict(level='proof', units=['U01', 'U05k', 'U07k'],
                 level_text='complete Kani proofs of comparison kernels and constant translation; Verus proof of null bitmap primitives',
                 level_note='compile_expr glue, LIKE/regex, string dictionary comparisons not covered yet',
